@@ -147,7 +147,7 @@ func faultClass(desc string) string {
 	if strings.HasPrefix(desc, "plygrammar/") {
 		return "ply-grammar-file"
 	}
-	for _, p := range []string{"truncate", "transient-read-error", "read-error", "stalled-source", "token", "byte", "count", "valid"} {
+	for _, p := range []string{"truncate", "transient-read-error", "read-error", "stalled-source", "trailing-data", "token", "byte", "count", "valid"} {
 		if strings.HasPrefix(rest, p) {
 			return p
 		}
